@@ -530,8 +530,9 @@ def gen_cases(jobs, stats, maxpar=None):
         for p in range(nparts):
             e = {"PART": p, "NPARTS": nparts}
             e.update(env)
-            # CStmt's Run recurses once per execution step: it needs a deep Java stack
-            kw = dict(module=module, cfg=cfg, workers=2 if sim else 4, env=e, heap="3g -Xss64m" if module == "CStmt" else "3g", timeout=2400)
+            # deep Java stack: CStmt's Run recurses once per execution step, W64's division once per bit (with the default
+            # stack TLC dies intermittently with StackOverflowError before the JIT has compiled the evaluator)
+            kw = dict(module=module, cfg=cfg, workers=2 if sim else 4, env=e, heap="3g -Xss64m", timeout=1500)
             if sim:
                 kw["env"] = dict(e, PART=0, NPARTS=1)
                 kw.update(simulate=max(1, sim // nparts), depth=depth, seed_=vlib.seed() * 1000 + p)
